@@ -401,6 +401,10 @@ class Pervaporation:
                 )
 
             feed_mass.append(feed_mass[step] - d_mass_1 - d_mass_2)
+            if not feed_mass[step + 1] > 0:
+                raise ValueError(
+                    "Feed is exhausted within the step: reduce step size, membrane area or number of steps"
+                )
 
             feed_composition.append(
                 Composition(
@@ -578,6 +582,10 @@ class Pervaporation:
             )
 
             feed_mass.append(feed_mass[step] - d_mass_1 - d_mass_2)
+            if not feed_mass[step + 1] > 0:
+                raise ValueError(
+                    "Feed is exhausted within the step: reduce step size, membrane area or number of steps"
+                )
 
             feed_composition.append(
                 Composition(
@@ -598,6 +606,10 @@ class Pervaporation:
             else:
                 feed_temperature.append(
                     conditions.temperature_program.program(time[step] + delta_hours)
+                )
+            if not feed_temperature[step + 1] > 0:
+                raise ValueError(
+                    "Feed temperature dropped to or below 0 K: reduce step size or membrane area"
                 )
 
         feed_mass.pop(-1)
@@ -1115,6 +1127,10 @@ class Pervaporation:
                 )
 
             feed_mass.append(feed_mass[step] - d_mass_1 - d_mass_2)
+            if not feed_mass[step + 1] > 0:
+                raise ValueError(
+                    "Feed is exhausted within the step: reduce step size, membrane area or number of steps"
+                )
 
             feed_composition.append(
                 Composition(
@@ -1435,6 +1451,10 @@ class Pervaporation:
             )
 
             feed_mass.append(feed_mass[step] - d_mass_1 - d_mass_2)
+            if not feed_mass[step + 1] > 0:
+                raise ValueError(
+                    "Feed is exhausted within the step: reduce step size, membrane area or number of steps"
+                )
 
             feed_composition.append(
                 Composition(
@@ -1455,6 +1475,10 @@ class Pervaporation:
             else:
                 feed_temperature.append(
                     conditions.temperature_program.program(time[step] + delta_hours)
+                )
+            if not feed_temperature[step + 1] > 0:
+                raise ValueError(
+                    "Feed temperature dropped to or below 0 K: reduce step size or membrane area"
                 )
 
             permeances.append(
